@@ -7,6 +7,10 @@ Expressions:  ("num", z) ("lbl", s) ("var", s) ("paren", e) ("macro", name, [arg
 Ops:          ("op", mnemonic, expr|None) ("label", l) ("push", e)
               ("defi", name, [params], [ops]) ("defe", name, [params], expr)
               ("macro", name, [args])
+Directives (ingest.rs nodes; only at the top level of a file):
+              ("import", path) ("include", path) ("include_hex", path)
+Raw ops (asm.rs RawOp), for printing the result of preprocessing:
+              ("scope", [rawops]) ("raw", bytes)   -- every other op is wrapped in ROp
 """
 import os
 import tomllib
@@ -75,6 +79,8 @@ def op_src(o, indent=""):
         return indent + "%push(" + expr_src(o[1]) + ")"
     if k == "macro":
         return indent + "%" + o[1] + "(" + ", ".join(expr_src(a) for a in o[2]) + ")"
+    if k in ("import", "include", "include_hex"):
+        return indent + "%" + k + '("' + o[1] + '")'
     if k == "defe":
         return indent + "%def " + o[1] + "(" + ", ".join(o[2]) + ")\n" + indent + "    " + expr_src(o[3]) + "\n" + indent + "%end"
     if k == "defi":
@@ -129,6 +135,56 @@ def op_coq(o):
 
 def prog_coq(prog):
     return "[" + "; ".join("ROp " + op_coq(o) for o in prog) + "]"
+
+
+DIRECTIVES = {"import": "NImport", "include": "NInclude", "include_hex": "NIncludeHex"}
+
+
+def node_coq(o):
+    """Model/Ingest.v `node`."""
+    if o[0] in DIRECTIVES:
+        return f"{DIRECTIVES[o[0]]} {cs(o[1])}"
+    return "NOp " + op_coq(o)
+
+
+def nodes_coq(prog):
+    return "[" + "; ".join(node_coq(o) for o in prog) + "]"
+
+
+def rawop_coq(o):
+    """Model/Asm.v `rawop` (the output of preprocessing)."""
+    if o[0] == "scope":
+        return "RScope " + rawops_coq(o[1])
+    if o[0] == "raw":
+        return "RRaw [" + "; ".join(str(b) for b in o[1]) + "]%N"
+    return "ROp " + op_coq(o)
+
+
+def rawops_coq(prog):
+    return "[" + "; ".join(rawop_coq(o) for o in prog) + "]"
+
+
+def coq_text(s):
+    """Any ASCII text as a Coq term of type string (control characters via `CH n`,
+    defined in the case-file preamble as String (ascii_of_nat n) EmptyString)."""
+    parts, cur = [], []
+    for ch in s:
+        if 32 <= ord(ch) < 127:
+            cur.append('""' if ch == '"' else ch)
+        else:
+            if ord(ch) > 127:
+                raise ValueError("non-ASCII text is outside the model")
+            if cur:
+                parts.append('"' + "".join(cur) + '"')
+                cur = []
+            parts.append(f"CH {ord(ch)}")
+    if cur:
+        parts.append('"' + "".join(cur) + '"')
+    if not parts:
+        return "EmptyString"
+    if len(parts) == 1:
+        return parts[0] if parts[0].startswith('"') else f"({parts[0]})"
+    return "(String.concat EmptyString [" + "; ".join(parts) + "])"
 
 
 # ---------------------------------------------------------------- reference parser of token lists
